@@ -732,7 +732,7 @@ _EXTRA = {
     "C10": " Also: reorderings with live nodes and exact node/terminal counts for the new order; single-threaded function types.",
     "C11": " Also: reorderings of 200 live functions (both node stores); eval with omitted / repeated arguments, also over 40 variables.",
     "C12": " Also: epoch and variable count changing in the same call; single-threaded function types and the pointer-based manager.",
-    "C13": " Also: one sampling cache kept across reordering, other handles, gc and dropped-and-recollected functions; single-threaded function types and the pointer-based manager.",
+    "C13": " Also: one sampling cache kept across reordering, other handles, gc, add_vars and dropped-and-recollected functions; single-threaded function types and the pointer-based manager.",
     "C14": " Also: the sweeps repeated from inside a scope of a second manager (allocation paths of threads bound to another store, with and without worker threads) and for DDDMP imports.",
     "C15": " Also: files with thousands of nodes, imports into larger managers, numbers beyond 64 bits, multi-byte names.",
     "C16": " Also: the manager monitor on both node stores; histories with rejected batches and a panicking name iterator.",
